@@ -230,4 +230,15 @@ def to_tla(v):
         if all(isinstance(k, str) for k in v):
             return "[" + ", ".join("%s |-> %s" % (k, to_tla(x)) for k, x in v.items()) + "]"
         return "(" + " @@ ".join("%s :> %s" % (to_tla(k), to_tla(x)) for k, x in v.items()) + ")"
+    try:  # numpy scalars / arrays
+        import numpy as np
+
+        if isinstance(v, np.bool_):
+            return "TRUE" if v else "FALSE"
+        if isinstance(v, np.integer):
+            return str(int(v))
+        if isinstance(v, np.ndarray):
+            return to_tla(v.tolist())
+    except ImportError:
+        pass
     raise TypeError(type(v))
